@@ -182,8 +182,8 @@ def run_job(job):
     if not np.array_equal(Af, A0):
         out['dist']['input_modified'] = 1        # C13's business; counted only
     # agreement with the finite entries of the three distance routines on the same network (binary, empty diagonal)
-    if job.get('dist', True):
-        B = (np.array(A, dtype=float) != 0).astype(float)
+    if job.get('dist', True) and n > 0:      # a zero-node network has no pairs to compare (and np.array([]) is 1-d)
+        B = (np.array(A, dtype=float).reshape(n, n) != 0).astype(float)
         np.fill_diagonal(B, 0)
         Bl = B.tolist()
         for name, f, pick in (('distance_bin', bct.distance_bin, lambda o: o),
